@@ -153,6 +153,7 @@ func Load(cfg Config) (*Ctx, error) {
 	c.Fset = pkgs[0].Fset
 	prog, _ := ssautil.AllPackages(pkgs, ssa.InstantiateGenerics)
 	prog.Build()
+	normalizeSpilledReturns(prog)
 	c.Prog = prog
 	for _, sp := range prog.AllPackages() {
 		c.SSAPkg[sp.Pkg.Path()] = sp
@@ -464,4 +465,54 @@ func (kf *KnownFile) Match(prop string, o Obligation) *Known {
 		}
 	}
 	return nil
+}
+
+// normalizeSpilledReturns undoes, for analysis purposes, the way go/ssa builds functions that
+// contain defer statements: every `return a, b` becomes stores into result cells, rundefers,
+// loads of the cells and a return of the loads. The loads hide which value each return hands
+// back; they are replaced in place by the values stored just before in the same block (the cells
+// are only written by the return sequence unless the function has named results that a deferred
+// closure modifies — then the Alloc has a name and is left alone).
+func normalizeSpilledReturns(prog *ssa.Program) {
+	for fn := range ssautil.AllFunctions(prog) {
+		if fn.Recover == nil || fn.Blocks == nil {
+			continue
+		}
+		for _, blk := range fn.Blocks {
+			n := len(blk.Instrs)
+			if n == 0 {
+				continue
+			}
+			ret, ok := blk.Instrs[n-1].(*ssa.Return)
+			if !ok {
+				continue
+			}
+			for i, res := range ret.Results {
+				ld, ok := res.(*ssa.UnOp)
+				if !ok || ld.Op != token.MUL {
+					continue
+				}
+				cell, ok := ld.X.(*ssa.Alloc)
+				if !ok || cell.Comment != "" {
+					continue
+				}
+				var val ssa.Value
+				for _, in := range blk.Instrs {
+					if in == ssa.Instruction(ld) {
+						break
+					}
+					if st, ok := in.(*ssa.Store); ok && st.Addr == ssa.Value(cell) {
+						val = st.Val
+					}
+				}
+				if val == nil {
+					continue
+				}
+				ret.Results[i] = val
+				if refs := val.Referrers(); refs != nil {
+					*refs = append(*refs, ret)
+				}
+			}
+		}
+	}
 }
